@@ -8,9 +8,9 @@ package core
 // ---------- QuotaInfo arithmetic (C01) ----------
 
 // m holds base+delta, or 0 where that sum is negative and the entry was already clamped
-//@ spec func sumOrZero(m v1.ResourceList, base v1.ResourceList, delta v1.ResourceList) bool = forall n v1.ResourceName :: val(m, n) == old(val(base, n)) + val(delta, n) || (val(m, n) == 0 && old(val(base, n)) + val(delta, n) < 0)
-//@ spec func clampedSum(m v1.ResourceList, base v1.ResourceList, delta v1.ResourceList) bool = forall n v1.ResourceName :: val(m, n) == max0(old(val(base, n)) + val(delta, n))
-//@ spec func sameDom(m v1.ResourceList, base v1.ResourceList, delta v1.ResourceList) bool = forall n v1.ResourceName :: has(m, n) == (old(has(base, n)) || has(delta, n))
+//@ spec func sumOrZero(m v1.ResourceList, base v1.ResourceList, delta v1.ResourceList) bool = forall n v1.ResourceName :: {val(m, n)} val(m, n) == old(val(base, n)) + val(delta, n) || (val(m, n) == 0 && old(val(base, n)) + val(delta, n) < 0)
+//@ spec func clampedSum(m v1.ResourceList, base v1.ResourceList, delta v1.ResourceList) bool = forall n v1.ResourceName :: {val(m, n)} val(m, n) == max0(old(val(base, n)) + val(delta, n))
+//@ spec func sameDom(m v1.ResourceList, base v1.ResourceList, delta v1.ResourceList) bool = forall n v1.ResourceName :: {has(m, n)} has(m, n) == (old(has(base, n)) || has(delta, n))
 //@ spec func sameList(m v1.ResourceList, base v1.ResourceList) bool = forall n v1.ResourceName :: has(m, n) == old(has(base, n)) && val(m, n) == old(val(base, n))
 
 //@ func createQuantity [C01]
@@ -25,7 +25,7 @@ package core
 //@   ensures #fresh: fresh(qi.CalculateInfo.ChildRequest)
 //@   modifies qi.CalculateInfo.ChildRequest
 //@   loop 1 invariant fresh(qi.CalculateInfo.ChildRequest) && sumOrZero(qi.CalculateInfo.ChildRequest, old(qi.CalculateInfo.ChildRequest), delta) && sameDom(qi.CalculateInfo.ChildRequest, old(qi.CalculateInfo.ChildRequest), delta)
-//@   loop 1 invariant forall j int :: 0 <= j && j < $i ==> val(qi.CalculateInfo.ChildRequest, $range[j]) == 0
+//@   loop 1 invariant forall j int :: {$range[j]} 0 <= j && j < $i ==> val(qi.CalculateInfo.ChildRequest, $range[j]) == 0
 
 //@ func (*QuotaInfo).addUsedNonNegativeNoLock [C01]
 //@   requires qi != nil
@@ -38,16 +38,16 @@ package core
 //@   modifies qi.CalculateInfo.Used, qi.CalculateInfo.NonPreemptibleUsed, qi.CalculateInfo.SelfUsed, qi.CalculateInfo.SelfNonPreemptibleUsed
 //@   loop 1 invariant fresh(qi.CalculateInfo.Used) && fresh(qi.CalculateInfo.NonPreemptibleUsed) && qi.CalculateInfo.Used != qi.CalculateInfo.NonPreemptibleUsed
 //@   loop 1 invariant sumOrZero(qi.CalculateInfo.Used, old(qi.CalculateInfo.Used), delta) && sameDom(qi.CalculateInfo.Used, old(qi.CalculateInfo.Used), delta)
-//@   loop 1 invariant forall j int :: 0 <= j && j < $i ==> val(qi.CalculateInfo.Used, $range[j]) == 0
+//@   loop 1 invariant forall j int :: {$range[j]} 0 <= j && j < $i ==> val(qi.CalculateInfo.Used, $range[j]) == 0
 //@   loop 2 invariant fresh(qi.CalculateInfo.NonPreemptibleUsed)
 //@   loop 2 invariant sumOrZero(qi.CalculateInfo.NonPreemptibleUsed, old(qi.CalculateInfo.NonPreemptibleUsed), deltaNonPreemptibleUsed) && sameDom(qi.CalculateInfo.NonPreemptibleUsed, old(qi.CalculateInfo.NonPreemptibleUsed), deltaNonPreemptibleUsed)
-//@   loop 2 invariant forall j int :: 0 <= j && j < $i ==> val(qi.CalculateInfo.NonPreemptibleUsed, $range[j]) == 0
+//@   loop 2 invariant forall j int :: {$range[j]} 0 <= j && j < $i ==> val(qi.CalculateInfo.NonPreemptibleUsed, $range[j]) == 0
 //@   loop 3 invariant fresh(qi.CalculateInfo.SelfUsed)
 //@   loop 3 invariant sumOrZero(qi.CalculateInfo.SelfUsed, old(qi.CalculateInfo.SelfUsed), delta) && sameDom(qi.CalculateInfo.SelfUsed, old(qi.CalculateInfo.SelfUsed), delta)
-//@   loop 3 invariant forall j int :: 0 <= j && j < $i ==> val(qi.CalculateInfo.SelfUsed, $range[j]) == 0
+//@   loop 3 invariant forall j int :: {$range[j]} 0 <= j && j < $i ==> val(qi.CalculateInfo.SelfUsed, $range[j]) == 0
 //@   loop 4 invariant fresh(qi.CalculateInfo.SelfNonPreemptibleUsed)
 //@   loop 4 invariant sumOrZero(qi.CalculateInfo.SelfNonPreemptibleUsed, old(qi.CalculateInfo.SelfNonPreemptibleUsed), deltaNonPreemptibleUsed) && sameDom(qi.CalculateInfo.SelfNonPreemptibleUsed, old(qi.CalculateInfo.SelfNonPreemptibleUsed), deltaNonPreemptibleUsed)
-//@   loop 4 invariant forall j int :: 0 <= j && j < $i ==> val(qi.CalculateInfo.SelfNonPreemptibleUsed, $range[j]) == 0
+//@   loop 4 invariant forall j int :: {$range[j]} 0 <= j && j < $i ==> val(qi.CalculateInfo.SelfNonPreemptibleUsed, $range[j]) == 0
 
 //@ func (*QuotaInfo).addRequestNonNegativeNoLock [C01]
 //@   requires qi != nil
@@ -60,16 +60,16 @@ package core
 //@   modifies qi.CalculateInfo.Request, qi.CalculateInfo.NonPreemptibleRequest, qi.CalculateInfo.SelfRequest, qi.CalculateInfo.SelfNonPreemptibleRequest
 //@   loop 1 invariant fresh(qi.CalculateInfo.Request)
 //@   loop 1 invariant sumOrZero(qi.CalculateInfo.Request, old(qi.CalculateInfo.Request), delta) && sameDom(qi.CalculateInfo.Request, old(qi.CalculateInfo.Request), delta)
-//@   loop 1 invariant forall j int :: 0 <= j && j < $i ==> val(qi.CalculateInfo.Request, $range[j]) == 0
+//@   loop 1 invariant forall j int :: {$range[j]} 0 <= j && j < $i ==> val(qi.CalculateInfo.Request, $range[j]) == 0
 //@   loop 2 invariant fresh(qi.CalculateInfo.NonPreemptibleRequest)
 //@   loop 2 invariant sumOrZero(qi.CalculateInfo.NonPreemptibleRequest, old(qi.CalculateInfo.NonPreemptibleRequest), deltaNonPreemptibleRequest) && sameDom(qi.CalculateInfo.NonPreemptibleRequest, old(qi.CalculateInfo.NonPreemptibleRequest), deltaNonPreemptibleRequest)
-//@   loop 2 invariant forall j int :: 0 <= j && j < $i ==> val(qi.CalculateInfo.NonPreemptibleRequest, $range[j]) == 0
+//@   loop 2 invariant forall j int :: {$range[j]} 0 <= j && j < $i ==> val(qi.CalculateInfo.NonPreemptibleRequest, $range[j]) == 0
 //@   loop 3 invariant fresh(qi.CalculateInfo.SelfRequest)
 //@   loop 3 invariant sumOrZero(qi.CalculateInfo.SelfRequest, old(qi.CalculateInfo.SelfRequest), delta) && sameDom(qi.CalculateInfo.SelfRequest, old(qi.CalculateInfo.SelfRequest), delta)
-//@   loop 3 invariant forall j int :: 0 <= j && j < $i ==> val(qi.CalculateInfo.SelfRequest, $range[j]) == 0
+//@   loop 3 invariant forall j int :: {$range[j]} 0 <= j && j < $i ==> val(qi.CalculateInfo.SelfRequest, $range[j]) == 0
 //@   loop 4 invariant fresh(qi.CalculateInfo.SelfNonPreemptibleRequest)
 //@   loop 4 invariant sumOrZero(qi.CalculateInfo.SelfNonPreemptibleRequest, old(qi.CalculateInfo.SelfNonPreemptibleRequest), deltaNonPreemptibleRequest) && sameDom(qi.CalculateInfo.SelfNonPreemptibleRequest, old(qi.CalculateInfo.SelfNonPreemptibleRequest), deltaNonPreemptibleRequest)
-//@   loop 4 invariant forall j int :: 0 <= j && j < $i ==> val(qi.CalculateInfo.SelfNonPreemptibleRequest, $range[j]) == 0
+//@   loop 4 invariant forall j int :: {$range[j]} 0 <= j && j < $i ==> val(qi.CalculateInfo.SelfNonPreemptibleRequest, $range[j]) == 0
 
 //@ func (*QuotaInfo).getLimitRequestNoLock [C01,C03]
 //@   requires qi != nil
@@ -80,3 +80,106 @@ package core
 //@   loop 1 invariant limitRequest != nil ==> fresh(limitRequest)
 //@   loop 1 invariant forall n v1.ResourceName :: has(limitRequest, n) == has(qi.CalculateInfo.Request, n)
 //@   loop 1 invariant forall n v1.ResourceName :: val(limitRequest, n) == ($seen[n] && has(qi.CalculateInfo.Max, n) && val(qi.CalculateInfo.Request, n) > val(qi.CalculateInfo.Max, n) ? val(qi.CalculateInfo.Max, n) : val(qi.CalculateInfo.Request, n))
+
+// ---------- hand-over of subtree totals on delete (C01) ----------
+
+// what a child contributes to its parent's ChildRequest: its request limited by its max
+//@ spec func limitReq(q *QuotaInfo, n v1.ResourceName) real = has(q.CalculateInfo.Request, n) && has(q.CalculateInfo.Max, n) && val(q.CalculateInfo.Request, n) > val(q.CalculateInfo.Max, n) ? val(q.CalculateInfo.Max, n) : val(q.CalculateInfo.Request, n)
+
+// The parent chain accumulated limitReq(child) for every child (recursiveUpdateGroupTreeWithDeltaRequest hands
+// newLimitReq-oldLimitReq upwards), and Used(child) unlimited. Removing a child must take back exactly those amounts.
+//@ func (*GroupQuotaManager).deleteQuotaNoLock [C01]
+//@   requires gqm != nil && quota != nil && gqm.quotaInfoMap != nil
+//@   requires forall k string :: has(gqm.quotaInfoMap, k) ==> gqm.quotaInfoMap[k] != nil
+//@   assert before call updateGroupDeltaRequestNoLock: #handback-request: $arg0 == quotaInfo.ParentName && $arg3 == 0 - 1 && (forall n v1.ResourceName :: val($arg1, n) == 0 - limitReq(quotaInfo, n)) && (forall n v1.ResourceName :: val($arg2, n) == 0 - val(quotaInfo.CalculateInfo.NonPreemptibleRequest, n))
+//@   assert before call updateGroupDeltaUsedNoLock: #handback-used: $arg0 == quotaInfo.ParentName && $arg3 == 0 - 1 && (forall n v1.ResourceName :: val($arg1, n) == 0 - val(quotaInfo.CalculateInfo.Used, n)) && (forall n v1.ResourceName :: val($arg2, n) == 0 - val(quotaInfo.CalculateInfo.NonPreemptibleUsed, n))
+//@   ensures #removed: result == nil ==> !has(gqm.quotaInfoMap, quota.ObjectMeta.Name)
+//@   ensures #missing: !old(has(gqm.quotaInfoMap, quota.ObjectMeta.Name)) ==> result != nil
+
+// ---------- pod cache (C01, C19) ----------
+
+// Hook plugins are observers of quota/pod events; they are assumed not to write GroupQuotaManager state.
+//@ ignore func (github.com/koordinator-sh/koordinator/pkg/scheduler/plugins/elasticquota/core.QuotaHookPlugin).*
+
+//@ spec func podKey(pod *v1.Pod) string = pod.ObjectMeta.Namespace + "/" + pod.ObjectMeta.Name
+//@ spec func cacheOK(qi *QuotaInfo) bool = qi != nil && qi.PodCache != nil && (forall k string :: {has(qi.PodCache, k)} has(qi.PodCache, k) ==> qi.PodCache[k] != nil)
+
+//@ func (*QuotaInfo).IsPodExist [C01]
+//@   requires qi != nil && pod != nil
+//@   ensures result == has(qi.PodCache, podKey(pod))
+//@   modifies nothing
+
+//@ func (*QuotaInfo).CheckPodIsAssigned [C01]
+//@   requires cacheOK(qi)
+//@   ensures result == (pod != nil && has(qi.PodCache, podKey(pod)) && qi.PodCache[podKey(pod)].isAssigned)
+//@   modifies nothing
+
+//@ func (*QuotaInfo).addPodIfNotPresent [C01]
+//@   requires cacheOK(qi) && pod != nil
+//@   ensures #present: has(qi.PodCache, podKey(pod))
+//@   ensures #new: !old(has(qi.PodCache, podKey(pod))) ==> fresh(qi.PodCache[podKey(pod)]) && qi.PodCache[podKey(pod)].pod == pod && !qi.PodCache[podKey(pod)].isAssigned
+//@   ensures #dup: old(has(qi.PodCache, podKey(pod))) ==> qi.PodCache[podKey(pod)] == old(qi.PodCache[podKey(pod)])
+//@   ensures #others: forall k string :: k != podKey(pod) ==> has(qi.PodCache, k) == old(has(qi.PodCache, k)) && qi.PodCache[k] == old(qi.PodCache[k])
+//@   ensures #ok: cacheOK(qi)
+//@   modifies contents(qi.PodCache)
+
+//@ func (*QuotaInfo).removePodIfPresent [C01]
+//@   requires cacheOK(qi) && pod != nil
+//@   ensures #gone: !has(qi.PodCache, podKey(pod))
+//@   ensures #others: forall k string :: k != podKey(pod) ==> has(qi.PodCache, k) == old(has(qi.PodCache, k)) && qi.PodCache[k] == old(qi.PodCache[k])
+//@   modifies contents(qi.PodCache)
+
+//@ func (*QuotaInfo).UpdatePodIsAssigned [C01]
+//@   requires cacheOK(qi) && pod != nil
+//@   ensures #err: result != nil <==> (!old(has(qi.PodCache, podKey(pod))) || old(qi.PodCache[podKey(pod)].isAssigned) == isAssigned)
+//@   ensures #set: result == nil ==> qi.PodCache[podKey(pod)].isAssigned == isAssigned
+//@   ensures #frame: forall p *PodInfo :: p != old(qi.PodCache[podKey(pod)]) || result != nil ==> p.isAssigned == old(p.isAssigned)
+//@   modifies all(PodInfo).isAssigned
+
+// The objects held in PodCache are what MigratePod / summaries / fail-over consume later: after an update event for
+// a pod that stays in the same quota, the cache entry must hold the new object (C01: "indistinguishable from figures
+// recomputed from scratch from the same final objects").
+//@ func (*GroupQuotaManager).OnPodUpdate [C01]
+//@   requires gqm != nil && gqm.quotaInfoMap != nil && newPod != nil && oldPod != nil && podKey(newPod) == podKey(oldPod)
+//@   requires forall k string :: has(gqm.quotaInfoMap, k) ==> cacheOK(gqm.quotaInfoMap[k])
+//@   ensures #cache-refresh: oldQuotaName == newQuotaName && has(gqm.quotaInfoMap, newQuotaName) && has(gqm.quotaInfoMap[newQuotaName].PodCache, podKey(newPod)) ==> gqm.quotaInfoMap[newQuotaName].PodCache[podKey(newPod)].pod == newPod
+
+//@ func (*QuotaInfo).refreshPodIfPresent [C01]
+//@   requires cacheOK(qi) && pod != nil
+//@   ensures #refreshed: has(qi.PodCache, podKey(pod)) ==> qi.PodCache[podKey(pod)].pod == pod && qi.PodCache[podKey(pod)].isAssigned == old(qi.PodCache[podKey(pod)].isAssigned)
+//@   ensures #frame: forall p *PodInfo :: p != qi.PodCache[podKey(pod)] ==> p.pod == old(p.pod) && p.resource == old(p.resource)
+//@   modifies all(PodInfo).pod, all(PodInfo).resource
+
+// ---------- reserve / unreserve (C01, C03) ----------
+
+//@ spec func quotasOK(gqm *GroupQuotaManager) bool = gqm != nil && gqm.quotaInfoMap != nil && (forall k string :: {has(gqm.quotaInfoMap, k)} has(gqm.quotaInfoMap, k) ==> cacheOK(gqm.quotaInfoMap[k]))
+//@ spec func isCached(gqm *GroupQuotaManager, quotaName string, p *v1.Pod) bool = has(gqm.quotaInfoMap, quotaName) && has(gqm.quotaInfoMap[quotaName].PodCache, podKey(p))
+//@ spec func isAssignedIn(gqm *GroupQuotaManager, quotaName string, p *v1.Pod) bool = isCached(gqm, quotaName, p) && gqm.quotaInfoMap[quotaName].PodCache[podKey(p)].isAssigned
+
+//@ func (*GroupQuotaManager).ReservePod [C01,C03]
+//@   requires quotasOK(gqm) && p != nil
+//@   assert before call updatePodUsedNoLock: #charge: $arg0 == quotaName && $arg1 == nil && $arg2 == p && isAssignedIn(gqm, quotaName, p)
+//@   ensures #noop: !old(isCached(gqm, quotaName, p)) || old(isAssignedIn(gqm, quotaName, p)) ==> calls("updatePodUsedNoLock") == 0
+//@   ensures #once: old(isCached(gqm, quotaName, p)) && !old(isAssignedIn(gqm, quotaName, p)) ==> calls("updatePodUsedNoLock") == 1
+
+//@ func (*GroupQuotaManager).UnreservePod [C01,C03]
+//@   requires quotasOK(gqm) && p != nil
+//@   assert before call updatePodUsedNoLock: #release: $arg0 == quotaName && $arg1 == p && $arg2 == nil && isAssignedIn(gqm, quotaName, p)
+//@   ensures #noop: !old(isAssignedIn(gqm, quotaName, p)) ==> calls("updatePodUsedNoLock") == 0
+//@   ensures #once: old(isAssignedIn(gqm, quotaName, p)) ==> calls("updatePodUsedNoLock") == 1
+
+//@ spec func gateOverhead() bool = k8sfeature.DefaultFeatureGate.Enabled(features.ElasticQuotaIgnorePodOverhead)
+
+// the amount charged to / released from the chain is the pod's request masked by the quota's max dimensions
+//@ func (*GroupQuotaManager).updatePodUsedNoLock [C01,C03]
+//@   requires quotasOK(gqm)
+//@   assert before call updateGroupDeltaUsedNoLock: #masked-delta: $arg0 == quotaName && $arg3 == 0 && (forall n v1.ResourceName :: val($arg1, n) == (has(quotaInfo.CalculateInfo.Max, n) ? (newPod != nil ? g_podReq(newPod, gateOverhead(), n) : 0) - (oldPod != nil ? g_podReq(oldPod, gateOverhead(), n) : 0) : 0))
+//@   ensures #unassigned: !old(isAssignedIn(gqm, quotaName, newPod)) && !old(isAssignedIn(gqm, quotaName, oldPod)) ==> calls("updateGroupDeltaUsedNoLock") == 0
+//@   ensures #atmostonce: calls("updateGroupDeltaUsedNoLock") <= 1
+//@   modifies inferred
+
+//@ func (*GroupQuotaManager).updatePodRequestNoLock [C01]
+//@   requires quotasOK(gqm)
+//@   assert before call updateGroupDeltaRequestNoLock: #masked-delta: $arg0 == quotaName && $arg3 == 0 && (forall n v1.ResourceName :: val($arg1, n) == (has(quotaInfo.CalculateInfo.Max, n) ? (newPod != nil ? g_podReq(newPod, gateOverhead(), n) : 0) - (oldPod != nil ? g_podReq(oldPod, gateOverhead(), n) : 0) : 0))
+//@   ensures #atmostonce: calls("updateGroupDeltaRequestNoLock") <= 1
+//@   modifies inferred
